@@ -151,8 +151,7 @@ class C18(Check):
         out = Outcome()
         data, model, folder_of, ranges = build(case["arch"])
         env.state["k"] += 1
-        work = os.path.join(env.scratch, "c18-%d" % env.state["k"])
-        os.makedirs(work)
+        work = env.tmpdir("c18-")  # unique: a replacement sandbox child must not collide with a killed one
         extras = list(case.get("extras") or [])
         try:
             if extras:
